@@ -69,6 +69,10 @@ def mk_item(it, kind):
         if acts is not None:
             extra["actions"] = acts
         return LoggedInteraction(dec_ctx(it.get("ctx")), it["action"], it["reward"], it.get("probability"), **extra)
+    if kind == "raw":        # a literal dict (used for the non-uniform key-set witnesses)
+        d = dict(it["raw"])
+        d["id"] = it["id"]
+        return d
     if kind == "bare":       # a plain dict interaction without a 'context' key
         d = {"actions": acts, "rewards": mk_reward(it["rewards"])}
         d.update(extra)
@@ -394,8 +398,8 @@ def model_items(case, with_rec=False):
     out = []
     for it in case["items"]:
         ex = it.get("extra", {})
-        m = {"id": it["id"], "logged": case["kind"] == "log" or ("action" in ex and "reward" in ex), "hasCtx": case["kind"] != "bare",
-             "ctx": model_ctx(it.get("ctx")) if case["kind"] != "bare" else None,
+        m = {"id": it["id"], "logged": case["kind"] == "log" or ("action" in ex and "reward" in ex), "hasCtx": case["kind"] not in ("bare", "raw"),
+             "ctx": model_ctx(it.get("ctx")) if case["kind"] not in ("bare", "raw") else None,
              "nact": len(it["actions"]) if it.get("actions") is not None else 0}
         if with_rec:
             m["rec"] = [[k, it["id"] * 64 + j] for j, k in enumerate(rec_keys(case, it))]
@@ -578,8 +582,8 @@ class C09(Property):
                 op["count"] = n
             op["pipes"] = rng.chance(0.2)
         elif opn == "slice":
-            op["start"] = rng.choice([None, 0, 1, 2, max(0, n - 1), n, n + 2, rng.randint(0, n + 1)])
-            op["stop"] = rng.choice([None, 0, 1, max(0, n - 1), n, n + 3, rng.randint(0, n + 1)])
+            op["start"] = rng.choice([None, None, 0, 1, 2, max(0, n - 1), n, n + 2, rng.randint(0, n + 1)])
+            op["stop"] = rng.choice([None, None, 0, 1, max(0, n - 1), n, n + 3, rng.randint(0, n + 1)])
             op["step"] = rng.choice([None, 1, 1, 2, 3, 5, n + 1])
             op["pipes"] = rng.chance(0.2)
         elif opn == "reservoir":
@@ -699,6 +703,9 @@ class C09(Property):
         for k in (None, 0, 1, 2, 5, 6):
             cs.append({"kind": "log", "items": log(5), "op": {"name": "batch", "size": k}, "input": "list"})
         cs.append({"kind": "sim", "items": sim(7), "op": {"name": "cache", "nslice": 2, "reads": [3, 0, None, 2, None]}, "input": "gen"})
+        # witnesses of batch_unbatch_id_counterexample / 2 (key sets differ inside one sequence): correspondence only
+        cs.append({"kind": "raw", "items": [{"id": 0, "raw": {"a": 1}}, {"id": 1, "raw": {"a": 2, "b": 3}}], "op": {"name": "batch", "size": 2}, "input": "list", "malformed": True})
+        cs.append({"kind": "raw", "items": [{"id": 0, "raw": {"a": 1, "b": 3}}, {"id": 1, "raw": {"a": 2}}], "op": {"name": "batch", "size": 2}, "input": "list", "malformed": True})
         return cs
 
     def exhaustive(self, tier):
